@@ -123,20 +123,31 @@ def oracle(case, obs):
     if "error" in cg:
         out.append(("cut-graph-accessor", "cutter.cut_graph raised %s" % cg["error"]))
     else:
-        pos = {tuple(p): v for v, p in enumerate(coords)}
-        try:
-            gv = [pos[tuple(p)] for p in cg["verts"]]
-        except KeyError:
-            gv = None
-        want_e = sorted(tuple(sorted(edges[e])) for e in cut)
-        if gv is None or len(set(gv)) != len(gv):
-            out.append(("cut-graph-accessor", "cut_graph vertices are not distinct input vertices"))
+        touched0 = {v for e in cut for v in edges[e]}
+        if len({tuple(p) for p in coords}) == len(coords):
+            pos = {tuple(p): v for v, p in enumerate(coords)}
+            try:
+                gv = [pos[tuple(p)] for p in cg["verts"]]
+            except KeyError:
+                gv = None
+            want_e = sorted(tuple(sorted(edges[e])) for e in cut)
+            if gv is None or len(set(gv)) != len(gv):
+                out.append(("cut-graph-accessor", "cut_graph vertices are not distinct input vertices"))
+            else:
+                got_e = sorted(tuple(sorted((gv[a], gv[b]))) for a, b in cg["edges"])
+                if got_e != want_e or set(gv) != touched0:
+                    out.append(("cut-graph-accessor", "cut_graph is not the graph of cut_edges"))
+                elif sorted(gv[i] for i in cg["selected"]) != sorted(set(singus) & touched0):
+                    out.append(("cut-graph-accessor", "cut_graph 'selection' does not mark the singular vertices of the cut graph"))
         else:
-            got_e = sorted(tuple(sorted((gv[a], gv[b]))) for a, b in cg["edges"])
-            touched0 = {v for e in cut for v in edges[e]}
-            if got_e != want_e or set(gv) != touched0:
-                out.append(("cut-graph-accessor", "cut_graph is not the graph of cut_edges"))
-            elif sorted(gv[i] for i in cg["selected"]) != sorted(set(singus) & touched0):
+            # coincident positions: vertices cannot be told apart by position, compare as multisets of positions
+            P = lambda v: tuple(coords[v])
+            Q = lambda i: tuple(cg["verts"][i])
+            want_e = sorted(tuple(sorted((P(a), P(b)))) for a, b in (edges[e] for e in cut))
+            got_e = sorted(tuple(sorted((Q(a), Q(b)))) for a, b in cg["edges"])
+            if sorted(map(tuple, cg["verts"])) != sorted(P(v) for v in touched0) or got_e != want_e:
+                out.append(("cut-graph-accessor", "cut_graph is not the graph of cut_edges (compared by positions)"))
+            elif sorted(Q(i) for i in cg["selected"]) != sorted(P(v) for v in set(singus) & touched0):
                 out.append(("cut-graph-accessor", "cut_graph 'selection' does not mark the singular vertices of the cut graph"))
 
     closed_sphere = st["loops"] == 0 and st["genus"] == 0
